@@ -14,6 +14,7 @@ import (
 )
 
 type Obligation struct {
+	MinTimeout int `json:"-"`
 	Name   string
 	Func   string
 	Kind   string
@@ -108,6 +109,7 @@ func (x *Exec) oblige(st *State, fn *ssa.Function, kind, detail, goal string) {
 	}
 	if x.c != nil {
 		o.Props = x.c.Props
+		o.MinTimeout = x.c.Timeout
 		for _, g := range x.c.Groups {
 			o.Groups[g] = true
 		}
@@ -231,6 +233,7 @@ func (x *Exec) obligeAt(st *State, fr *frame, kind string, pos token.Pos, what, 
 	}
 	if x.c != nil {
 		o.Props = x.c.Props
+		o.MinTimeout = x.c.Timeout
 		for _, g := range x.c.Groups {
 			o.Groups[g] = true
 		}
@@ -691,6 +694,9 @@ func (x *Exec) runBlock(st *State, fr *frame, b *ssa.BasicBlock, from int) []out
 		in := b.Instrs[i]
 		if _, isDbg := in.(*ssa.DebugRef); !isDbg {
 			x.lineHooks(st, fr, in)
+			if st.dead {
+				return nil
+			}
 		}
 		switch in := in.(type) {
 		case *ssa.DebugRef:
@@ -700,10 +706,10 @@ func (x *Exec) runBlock(st *State, fr *frame, b *ssa.BasicBlock, from int) []out
 			if x.prune && c.T != "true" && c.T != "false" {
 				// statically bounded recursion over symbolic data (the codec): follow feasible branches only
 				// refutations are quick, satisfiability with quantified axioms is not: ask which side is impossible
-				if !x.feasibleCond(st, c.T) {
+				if ci, ni := x.refuteEither(st, c.T); ci {
 					st.assumePC(not(c.T))
 					c.T = "false"
-				} else if !x.feasibleCond(st, not(c.T)) {
+				} else if ni {
 					st.assumePC(c.T)
 					c.T = "true"
 				}
@@ -909,6 +915,9 @@ func (x *Exec) step(st *State, fr *frame, in ssa.Instruction) bool {
 		st.assume(and("(<= 0 "+ln.T+")", "(<= "+ln.T+" "+cp.T+")"))
 		et := in.Type().Underlying().(*types.Slice).Elem()
 		x.allocHook(st, fr, in, et, cp.T)
+		if _, lit := constOf(cp.T); !lit {
+			st.addDynAlloc(fmt.Sprintf("(* %s %d)", cp.T, e.sizeofElem(et)))
+		}
 		loc := st.newLoc("mk")
 		_, _, h := st.elemHeap(et)
 		st.assumeZeroArray("(select "+h+" "+loc+")", et)
@@ -1059,13 +1068,13 @@ func (x *Exec) cmpEq(st *State, a, b Val) string {
 	}
 	if _, ok := a.Ty.Underlying().(*types.Interface); ok {
 		if b.T == "(mk_iface 0 0)" {
-			if a.Dyn != nil {
+			if a.Dyn != nil || a.NonNil {
 				return "false"
 			}
 			return "(= (i_tag " + a.T + ") 0)"
 		}
 		if a.T == "(mk_iface 0 0)" {
-			if b.Dyn != nil {
+			if b.Dyn != nil || b.NonNil {
 				return "false"
 			}
 			return "(= (i_tag " + b.T + ") 0)"
@@ -1377,6 +1386,7 @@ func (x *Exec) convert(st *State, fr *frame, in *ssa.Convert) (Val, bool) {
 		}
 		return Val{T: st.name("cv", "Int", e.wrap(to, src)), Ty: to}, true
 	case isStringTy(to) && isByteSlice(from):
+		st.addDynAlloc("(s_len " + v.T + ")")
 		return Val{T: "(mkstr " + st.window(v.T) + ")", Ty: to}, true
 	case isByteSlice(to) && isStringTy(from):
 		e.needBytes()
@@ -1516,6 +1526,9 @@ func (x *Exec) lineHooks(st *State, fr *frame, in ssa.Instruction) {
 	fr.curLine = key
 	text := x.e.sourceLine(p.Filename, p.Line)
 	fr.curText = text
+	if os.Getenv("P9VC_TRACE") != "" && len(ct.Ats) > 0 {
+		fmt.Fprintf(os.Stderr, "line %s: %s\n", key, strings.TrimSpace(text))
+	}
 	for i, h := range ct.Ats {
 		if h.Kind == "set" || !strings.Contains(text, h.Pattern) {
 			continue
@@ -1531,6 +1544,10 @@ func (x *Exec) lineHooks(st *State, fr *frame, in ssa.Instruction) {
 			x.oblige(st, fr.fn, "at", clauseName("at", i, h.Clause), t)
 		}
 		st.assume(t)
+		if h.Kind == "assert" && strings.HasPrefix(h.Clause.Label, "excluded") && !x.feasibleCond(st, "true") {
+			// an assertion labelled excluded...: once proved, paths that contradict it are not explored further
+			st.dead = true
+		}
 	}
 }
 
@@ -1633,10 +1650,16 @@ func (x *Exec) concreteRange(st *State, fr *frame, li *loopInfo) bool {
 }
 
 func (x *Exec) caseSuffix() string {
-	if x.caseName == "" {
+	v := ""
+	if x.c != nil {
+		if i := strings.Index(x.c.Name, "#"); i > 0 {
+			v = x.c.Name[i:]
+		}
+	}
+	if x.caseName == "" && v == "" {
 		return ""
 	}
-	return "[" + x.caseName + "]"
+	return "[" + v + x.caseName + "]"
 }
 
 // bindDyn pins the dynamic type of an interface-typed parameter (path "v") or of an interface-typed field of the struct a
